@@ -8,6 +8,7 @@ From Coq Require Import ZArith List Ring Ring_theory.
 From Coq Require Import Bool.
 From Coq.Strings Require Import Byte.
 From TS Require Import Bytes State Prog Ops Interp Algebra AdapterLink.
+From TS Require BuilderSourcesProofs.
 Import ListNotations.
 
 (* ---- the definitions the statements are about (mirror of tapescript/functions.py) ---- *)
@@ -383,6 +384,21 @@ Print Assumptions C17_instructions_adapter_decrypts_and_recovers.
 Print Assumptions C17_make_private_instruction_computes.
 Print Assumptions C17_private_instruction_check_iff.
 Print Assumptions C17_link_hypotheses_satisfiable_run.
+(* ---------- the adapter builders as SOURCE (model/BuilderSources.v mirrors the f-string templates of tools.py token for token — 83 Examples
+   against the real .src / .bytes; proofs/BuilderSourcesProofs.v: the template TEXT compiles, for all arguments, to the bytes of
+   model/Builders.v that the theorems above are about; closed statements printed by Check) ---------- *)
+Definition C17_src_adapter_check_lock_compiles := @BuilderSourcesProofs.adapter_check_lock_compiles.
+Definition C17_src_adapter_sig_lock_compiles := @BuilderSourcesProofs.adapter_sig_lock_compiles.
+Definition C17_src_adapter_decrypt_compiles := @BuilderSourcesProofs.adapter_decrypt_compiles.
+Definition C17_src_adapter_witness_compiles := @BuilderSourcesProofs.adapter_witness_compiles.
+Check C17_src_adapter_check_lock_compiles.
+Check C17_src_adapter_sig_lock_compiles.
+Check C17_src_adapter_decrypt_compiles.
+Print Assumptions C17_src_adapter_check_lock_compiles.
+Print Assumptions C17_src_adapter_sig_lock_compiles.
+Print Assumptions C17_src_adapter_decrypt_compiles.
+Print Assumptions C17_src_adapter_witness_compiles.
+
 Print Assumptions C17_adapter_checks.
 Print Assumptions C17_adapter_decrypts.
 Print Assumptions C17_recover_decrypt.
